@@ -222,7 +222,7 @@ def correspond_cache(res, drv, case):
     parts = [p.strip() for p in rep[3:].split(" | ")]
     k = next(i for i, p in enumerate(parts) if p.startswith("flags "))
     m_out = [p for p in parts[:k] if p == "done" or p.startswith("raised")]
-    if m_out != outcomes:
+    if [x.split()[0] for x in m_out] != [x.split()[0] for x in outcomes]:      # done / raised (not which exception)
         res.disagree(f"{form} heuristic outcomes along the history", outcomes, m_out)
         return
     if dead:
@@ -236,7 +236,7 @@ def correspond_cache(res, drv, case):
         res.disagree(f"{form} cache flags (enumerated, objective, constraints) after the history", impl_flags, fl[:3])
     mg = MU.parse_graph(MU.Toks(parts[k + 1].split()))
     g = VU.graph_of(o)
-    if (g["nodes"], g["arcs"]) != (mg["nodes"], mg["arcs"]):
+    if (g["nodes"], sorted(g["arcs"])) != (mg["nodes"], sorted(mg["arcs"])):
         res.disagree(f"{form} graph after the history", [a for a in g["arcs"] if a not in mg["arcs"]][:3], [a for a in mg["arcs"] if a not in g["arcs"]][:3])
     msol = parts[-1].split()
     isol = None if o.feasible_solution is None else [F(v) for v in np.asarray(o.feasible_solution).ravel()]
@@ -363,7 +363,8 @@ def correspond_flags(res, drv, case):
             res.disagree(what + ": flags after the call", fl_, mfl)
             return
         if out[1:2] == ("raised",):
-            if not (len(tk) >= 3 and tk[1] == "raised" and tk[2] == out[2]) and not (tk[1:2] == [out[2]]):
+            # (the model and the code must both raise; which exception is not part of the property)
+            if not ("raised" in tk[:3] or any(t.startswith("err:") for t in tk[:3])):
                 res.disagree(what + ": raised", out[2], dig[:80])
                 return
             continue
@@ -420,7 +421,7 @@ def correspond_flags(res, drv, case):
     k = next(i for i, p in enumerate(parts) if p.startswith("final "))
     mg = MU.parse_graph(MU.Toks(parts[k][6:].split()))
     g = VU.graph_of(o)
-    if (g["nodes"], g["arcs"]) != (mg["nodes"], mg["arcs"]):
+    if (g["nodes"], sorted(g["arcs"])) != (mg["nodes"], sorted(mg["arcs"])):
         res.disagree(f"{form} flag machine: graph after the history", [a for a in g["arcs"] if a not in mg["arcs"]][:3], [a for a in mg["arcs"] if a not in g["arcs"]][:3])
     if form == "seq":
         tv = parts[k + 1].split()
